@@ -72,7 +72,7 @@ def prims():
 
 def well_formed_states(maxlen=3):
     """(slots tuple, next_free): every Vacant slot is on the free list exactly once."""
-    P = [("obj", 10), ("obj", 11), ("obj", 12)]
+    P = [("obj", 10 + i) for i in range(maxlen + 1)]
     out = []
     for n in range(maxlen + 1):
         for kinds in itertools.product(("V", "O0", "O1", "O2"), repeat=n):
@@ -203,7 +203,7 @@ def explore(chk, prog, depth=7, max_live=3, max_handles=3):
     chk.extra["slot_reachability"] = {"states": nstates, "transitions": ntrans, "depth": depth}
 
 
-def run_tables(chk, prog, config="default"):
+def run_tables(chk, prog, config="default", maxlen=3):
     names = [f["name"] for f in prog.all_adts[SLOTS]["variants"][0]["fields"]]
     if names != ["slots", "next_free"]:
         # the table constructor below builds states by hand for the reviewed representation; a different
@@ -218,7 +218,7 @@ def run_tables(chk, prog, config="default"):
         if not chk.anchor(n, n in prog.seed_n):
             return
         keys[fn] = prog.seed_n[n][0]
-    states = well_formed_states()
+    states = well_formed_states(maxlen)
     newp = ("obj", 99)
     nrows = 0
     for (slots, nf) in states:
